@@ -6,20 +6,16 @@
 From MoPep Require Import Model.Base Model.Rmats Model.Fusion Proofs.RmatsProofs Proofs.FusionProofs.
 Open Scope Z_scope.
 
-(* FULL STATEMENT (fusion_denotes): for every tool, every row with 1-based breakpoints L (last donor base) and R (first
-   accepter base), all four strand combinations, every emitted record x and its transcripts td, ta:
-     fusion_apply ... x = Some (fused_seq sd dchrom (t_exons td) (L-1) sa achrom (t_exons ta) (R-1))
-   for exonic AND intronic breakpoints (fused_seq retains the intronic bases between the neighbouring exon and the
-   breakpoint).
-   Proved here for all inputs, all three tools, all four strand combinations:
+(* fusion_denotes (FULL: all three tools, all four strand combinations, exonic and intronic breakpoints).
+   For a row with 1-based breakpoints L (last donor base) and R (first accepter base):
      - the emitted records are exactly the pairs of transcripts whose span contains the breakpoints,
      - POS - 1 / ACCEPTER_POSITION are the gene coordinates of genomic L-1 / R-1 (strand-aware),
-     - the denotation equals fused_seq when both breakpoints are exonic in the pair's transcripts (this includes the
-       splice-site case: last base of a donor exon, first base of an accepter exon).
-   NOT proved in Coq (time): the clause for intronic breakpoints (retained intron through
-   get_upstream_exon_end / get_downstream_exon_start); it is checked by the correspondence only (Coq fusion_apply and
-   fused_seq are evaluated against the python ground truth on every sampled record, intronic ones included). *)
-Theorem fusion_denotes_partial :
+     - every record, read through shift_breakpoint_to_closest_exon + the fusion branch of to_transcript_variant
+       (fusion_apply), denotes exactly fused_seq: donor transcript up to the left breakpoint (+ the intronic bases
+       between the preceding exon and an intronic breakpoint) ++ (intronic bases from an intronic right breakpoint to
+       the next exon +) accepter transcript from the right breakpoint.
+   Hypotheses: both genes well-formed (wf_gene) and the transcript lines span their exons (span_ok). *)
+Theorem fusion_denotes :
   forall t genes chroms dg ag L R out,
   convert t genes chroms dg ag L R = FOk out ->
   exists d a,
@@ -29,16 +25,17 @@ Theorem fusion_denotes_partial :
     forall x, In x out ->
       gene2genomic (w_gene d) (f_pos x - 1) = L - 1 /\ gene2genomic (w_gene a) (f_apos x) = R - 1 /\
       forall td ta,
+        0 <= f_dtx x -> 0 <= f_atx x ->
         nth_error (g_txs (w_gene d)) (Z.to_nat (f_dtx x)) = Some td ->
         nth_error (g_txs (w_gene a)) (Z.to_nat (f_atx x)) = Some ta ->
         wf_gene (w_gene d) (chrom_of chroms (w_chrom d)) -> wf_gene (w_gene a) (chrom_of chroms (w_chrom a)) ->
-        exonic_in (t_exons td) (L - 1) -> exonic_in (t_exons ta) (R - 1) ->
+        span_ok td -> span_ok ta ->
         fusion_apply (w_gene d) (chrom_of chroms (w_chrom d)) (t_exons td)
                      (w_gene a) (chrom_of chroms (w_chrom a)) (t_exons ta) x
         = Some (fused_seq (g_strand (w_gene d)) (chrom_of chroms (w_chrom d)) (t_exons td) (L - 1)
                           (g_strand (w_gene a)) (chrom_of chroms (w_chrom a)) (t_exons ta) (R - 1)).
-Proof. exact fusion_denotes_exonic. Qed.
-Print Assumptions fusion_denotes_partial.
+Proof. exact fusion_denotes_full. Qed.
+Print Assumptions fusion_denotes.
 
 (* every row is counted exactly once (processed or skipped); a record in the output comes from a row that passed the
    evidence filters, names two known genes and was converted without error *)
@@ -77,17 +74,15 @@ Definition ex_genes : list wgene := [mkW ex_gd 0; mkW ex_ga 0].
 Example ex_fusion_exonic :
   exists r1 r2, convert Arriba ex_genes [ex_chrom] 0 1 8 70 = FOk [r1; r2] /\
     wf_gene ex_gd ex_chrom /\ wf_gene ex_ga ex_chrom /\
-    exonic_in [(2, 10); (15, 22); (30, 40)] 7 /\ exonic_in [(45, 55); (60, 80)] 69.
+    span_ok (mkTx [(2, 10); (15, 22); (30, 40)] 2 40) /\ span_ok (mkTx [(45, 55); (60, 80)] 45 80).
 Proof.
   do 2 eexists. split; [vm_compute; reflexivity|].
   split; [unfold wf_gene; cbn; repeat split; try lia; intros t [<-|[<-|[]]]; cbn; lia|].
   split; [unfold wf_gene; cbn; repeat split; try lia; intros t [<-|[]]; cbn; lia|].
-  split; [exists [], (2, 10), [(15, 22); (30, 40)]; cbn; repeat split; lia
-         |exists [(45, 55)], (60, 80), []; cbn; repeat split; lia].
+  split; split; reflexivity.
 Qed.
 
-(* intronic / intronic on the same pair (the clause that is only correspondence-tested): the instance computes to
-   the declarative fusion transcript with both retained introns *)
+(* intronic / intronic on the same pair: both retained introns *)
 Example ex_fusion_intronic :
   exists r rest, convert Star ex_genes [ex_chrom] 0 1 25 58 = FOk (r :: rest) /\
     fusion_apply ex_gd ex_chrom [(2, 10); (15, 22); (30, 40)] ex_ga ex_chrom [(45, 55); (60, 80)] r
